@@ -16,7 +16,7 @@ from props import common_match
 warnings.simplefilter('ignore')
 PID = 'C19'
 SOURCES = ['SoupVerif/Properties/C19.lean', 'SoupVerif/Spec/Text.lean', 'SoupVerif/Model/TextWalk.lean', 'SoupVerif/Lemmas/Text.lean',
-           'SoupVerif/Model/Match.lean']
+           'SoupVerif/Model/Match.lean', 'SoupVerif/Properties/C19Gen.lean', 'SoupVerif/Properties/C19GenRoot.lean', 'SoupVerif/Model/PyFlagLoop.lean', 'SoupVerif/Generated/PyTextFn.lean']
 RULE = ('(1) API-built trees with every interleaving of text, comment, CDATA, processing-instruction, doctype, declaration and element '
         'nodes at any depth (parsers cannot produce all of them everywhere), including the SUBCLASSES of the string node classes '
         '(XMLProcessingInstruction, Script, Stylesheet, TemplateString, Ruby*String, application-defined subclasses of each markup '
